@@ -251,6 +251,71 @@ theorem default_member_found_partial (strs : List (List Char)) (s reprValue : Li
         rw [List.find?_cons_of_neg hno]
         exact hn
 
+/-- two entries with the same literal text are the same entry (the lexer reads the entry back) -/
+theorem member_literal_injective (t s : List Char)
+    (h : quoted '\'' enumTable t = quoted '\'' enumTable s) : t = s := by
+  have h1 := member_read_back (.str t)
+  have h2 := member_read_back (.str s)
+  simp only [memberDefault] at h1 h2
+  rw [h, h2] at h1
+  simpa using h1.symm
+
+/-- PARTIAL, escaped strings (`--set-default-enum-member`; the region outside known finding D24): a default
+equal to an entry whose hand-escaped literal IS `repr(default)` (backslash, `\n`, `\r`, `\t`, NUL … without
+quotes) is found through the second comparison of `find_member`, provided no OTHER entry has the same text
+after stripping quotes. The member returned has that entry's value. -/
+theorem default_member_found_by_repr_partial (strs : List (List Char)) (s reprValue : List Char) :
+    ∀ (ms : List Member),
+      ms.map (·.2) = strs.map (fun t => memberDefault (.str t)) →
+      s ∈ strs → s ≠ [] →
+      quoted '\'' enumTable s = reprValue →
+      (∀ t ∈ strs, t ≠ s → stripQ (quoted '\'' enumTable t) ≠ stripQ s) →
+      ∃ n, defaultMember ms (.str s) reprValue = some n ∧ (n, memberDefault (.str s)) ∈ ms := by
+  induction strs with
+  | nil => intro ms _ hs _ _ _; cases hs
+  | cons t ts ih =>
+    intro ms hms hs hne hrepr htwin
+    cases ms with
+    | nil => simp at hms
+    | cons m ms' =>
+      simp only [List.map_cons, List.cons.injEq] at hms
+      obtain ⟨hm, hms'⟩ := hms
+      have hnf : (JVal.str s).falsy = false := by
+        simp only [JVal.falsy]; cases s with
+        | nil => exact absurd rfl hne
+        | cons _ _ => rfl
+      by_cases hts : t = s
+      · subst hts
+        refine ⟨m.1, ?_, ?_⟩
+        · have hyes : memberMatches (.str t) reprValue m = true := by
+            simp [memberMatches, hm, memberDefault, hrepr]
+          simp [defaultMember, hnf, findMember, List.find?_cons_of_pos hyes]
+        · rw [← hm]; exact List.mem_cons_self
+      · have hs' : s ∈ ts := by
+          simp only [List.mem_cons] at hs
+          rcases hs with hs | hs
+          · exact absurd hs.symm hts
+          · exact hs
+        obtain ⟨n, hn, hmem⟩ := ih ms' hms' hs' hne hrepr
+          (fun u hu => htwin u (List.mem_cons_of_mem _ hu))
+        refine ⟨n, ?_, List.mem_cons_of_mem _ hmem⟩
+        have hno : ¬ memberMatches (.str s) reprValue m = true := by
+          unfold memberMatches
+          rw [hm]
+          simp only [memberDefault, Default.strOrEmpty, JVal.pyStr, Bool.or_eq_true, beq_iff_eq, not_or]
+          refine ⟨htwin t List.mem_cons_self hts, fun h => hts ?_⟩
+          exact member_literal_injective t s (h.trans hrepr.symm)
+        simp only [defaultMember, hnf, Bool.false_eq_true, if_false, findMember] at hn ⊢
+        rw [List.find?_cons_of_neg hno]
+        exact hn
+
+/-- non-vacuity: `a\b` (backslash) next to `x`: the literal `'a\\b'` is `repr("a\\b")`, no twin -/
+example :
+    quoted '\'' enumTable ['a', '\\', 'b'] = ['\'', 'a', '\\', '\\', 'b', '\''] ∧
+    ∀ t ∈ [['x'], ['a', '\\', 'b']], t ≠ ['a', '\\', 'b'] →
+      stripQ (quoted '\'' enumTable t) ≠ stripQ ['a', '\\', 'b'] := by
+  decide +kernel
+
 /-- non-vacuity: the hypotheses hold for an ordinary enum -/
 example : ∀ t ∈ [['a'], ['b', ' ', 'c'], ['m', 'r', 'o']], plainStr t = true := by decide
 
